@@ -7,11 +7,15 @@ From ZV Require Export Shapes.Shapes.
 (* ---------------------------------------------------------------- what the macros generate *)
 
 (* How the ReplyError derive decodes a variant without fields (reply_error.rs,
-   generate_deserialize_with_derive: the helper enum keeps it a unit variant).
-   Tree as pinned: plain serde unit variant -> content absent or null only.
-   After `fix: accept an empty parameters object for errors without parameters` the helper enum
-   reads the content of such a variant with a function that accepts null and any object. *)
-Definition derive_unit : vkind := KUnit.
+   generate_deserialize_with_derive).
+   Tree as pinned: the helper enum kept it a plain serde unit variant -> content absent or null only
+   (KUnit).
+   Since d12b38a `fix: ReplyError derive accepts an empty parameters object for errors without
+   parameters` the helper enum's unit variants carry
+   #[serde(deserialize_with = "__zlink_no_parameters")]: the content is read with deserialize_any
+   by a visitor accepting unit/none and any map (entries drained); a missing content is still
+   accepted (enum_adjacently.rs missing_content: Style::Unit). *)
+Definition derive_unit : vkind := KLenient.
 
 (* #[derive(ReplyError)] #[zlink(interface = iface)] enum with the given variants: adjacently
    tagged, tag "error", content "parameters", variant names qualified with the interface. *)
@@ -82,10 +86,10 @@ Definition classify (E P : shape) (v : jval) : outcome :=
      match self.call_method::<_, ReplyType, ErrorType>(&call).await? {
          Ok(reply) => <unit output: Ok(Ok(()))  |  otherwise: reply.into_parameters() or MissingParameters>,
          Err(error) => Ok(Err(error)) }
-   Tree as pinned: a method without output decodes the parameters as `()`.
-   After `fix: accept an empty parameters object in replies of methods without output` it decodes
-   them as a struct without fields. *)
-Definition no_output_shape : shape := SUnit.
+   Tree as pinned: a method without output decoded the parameters as `()` (SUnit).
+   Since 4f5ea1b `fix: proxy methods without output parameters accept an empty parameters object`
+   it decodes them as `#[derive(Deserialize)] struct NoOutputParameters {}`. *)
+Definition no_output_shape : shape := SStruct [].
 
 Inductive pout :=
 | POk (r : rval)
